@@ -87,6 +87,10 @@ class Sample:
         self.phases: Dict[str, Dict[int, str]] = {}
         """Phasing information."""
 
+        self._insertion_sites = {pos for pos, op in gene.mutations if op[:3] == "ins"}
+        self._insertion_sites -= {pos for pos, op in gene.mutations if op[:3] != "ins"}
+        """Locations whose only database variants are insertions."""
+
         self._fusion_counter: Dict = {}
         """Fusion read coverage (for long reads)."""
 
@@ -709,6 +713,10 @@ class Sample:
                     prev_q = q
                 start += size
                 s_start += size
+
+        # A read that ends at the base preceding a database insertion says nothing about it
+        if start - 1 in self._insertion_sites and phase.get(start - 1) == "_":
+            del phase[start - 1]
 
         dump_arr_pos = {p for p, _ in dump_arr}
         for pos, op in self._multi_sites.items():
